@@ -18,7 +18,15 @@ that depend on it undecidable.
 
 A local lambda without parameters that classifies the pool state into an enumeration by reading data members only (`const auto
 next_step = [this]() -> Next {...};`) and is used for nothing but `next_step() == K` / `!= K` / `switch (next_step())` is replaced by
-its value at these calls, also inside lambdas that capture it by reference (inline_classifier_lambdas)."""
+its value at these calls, also inside lambdas that capture it by reference (inline_classifier_lambdas).
+
+A member function of the pool that is new (not in data/known.json), contains a try block (engine/normalize.py leaves those alone) and
+is only called on *this in statement position (`run_front_job(lock);`) is expanded at its calls as one compound statement, a guard
+passed by reference being the caller's guard (inline_try_helpers); the helper is then judged through its callers only.
+
+`job.swap(jobs_.front())` on the job object is read as a load of the closure of the queue element; the previous content of the job
+object goes into the queue slot, so JOB-LIFETIME demands that the job object is empty there (no path from a load / the invocation
+to the swap without a destruction in between).  A swap with anything else stays `cannot decide`."""
 import copy
 
 from engine import ir, dtable, match, sync, skel, normalize, cfgbuild
@@ -263,6 +271,96 @@ def inline_local_lambdas(tu, fn):
     fn._parent = None
     fn.normalized = True
     return gone
+
+
+# ------------------------------------------------------------------------------------------------ new member helpers with a try block
+def _helper_call_site(body, cal):
+    """(call, top, q): the first call of cal in body, the statement `top` it forms and the parent q of that statement"""
+    par = _parents(body)
+    for y in ir.walk(body):
+        if "callee" in y and y["callee"].get("did") == cal.did:
+            if y["k"] != "CXXMemberCallExpr" or not y.get("member_call"):
+                raise normalize.Fail("call form")
+            top, q = y, par.get(y["id"])
+            while q is not None and q["k"] == "ExprWithCleanups":
+                top, q = q, par.get(q["id"])
+            if q is None or not any(x is top for x in kids(q)):
+                raise normalize.Fail("call position")
+            return y, top, q
+    return None
+
+
+def inline_try_helpers(tu, fns):
+    """`void ThreadPool::run_front_job(std::unique_lock<std::mutex>& lock) { Job job = ...; lock.unlock(); try { job(); } catch ... }`
+    called as a statement `run_front_job(lock);` - a member function of the pool that did not exist in the tree the rules were
+    written against (data/known.json) and that engine/normalize.py left alone because it contains a try block.  Its calls on
+    *this in statement position are expanded in place: reference parameters name the caller's objects (a guard passed by reference
+    is the caller's guard), value parameters become fresh locals, the helper's locals get fresh ids, early returns become if/else
+    (a return inside a try block or a loop is not rewritten: nothing is expanded then), and the expansion is ONE compound
+    statement, so the helper's locals are destroyed where the helper returned.  A try block keeps its meaning: what leaves the
+    helper by an exception leaves the statement at the call the same way.  Same operations in the same order on the same objects;
+    the lock flow, the path searches and the job-lifetime rule then see them where they are executed.  A helper all of whose
+    uses are expanded is judged through its callers only and leaves the list of members; a helper that is also used in another
+    way (in an expression, through a pointer to member, from a lambda, recursively, with a lambda / goto / static local inside,
+    or with a namesake that could override it) stays a function of its own (the rules then decide it or give up as before).
+    Returns the members to analyse."""
+    kn = normalize.known()
+    if not kn:
+        return fns
+    fns = list(fns)
+    helpers = [f for f in fns if f.qname not in kn["functions"] and f.kind not in ("ctor", "dtor", "lambda") and f.body is not None
+               and f.body["k"] == "CompoundStmt" and f.cfg]
+    for cal in helpers:
+        if any(y["k"] in ("GotoStmt", "LabelStmt", "IndirectGotoStmt", "LambdaExpr") or (y["k"] == "VarDecl" and y.get("static")) for y in ir.walk(cal.body)):
+            continue
+        if not any(y["k"] == "CXXTryStmt" for y in ir.walk(cal.body)):
+            continue          # (the others were expanded by engine/normalize.py, or it had a reason not to)
+        if any(f2.name == cal.name and f2.did != cal.did for f2 in tu.functions):
+            continue          # a namesake: an overload or an overrider in another class
+        if any("callee" in y and y["callee"].get("did") == cal.did for y in ir.walk(cal.body)):
+            continue          # recursive
+        users = [f for f in tu.functions if f is not cal and any(("callee" in y and y["callee"].get("did") == cal.did) or
+                                                                 (y["k"] == "DeclRefExpr" and y["ref"]["id"] == cal.did) for y in f.nodes())]
+        if not users or any(f.kind == "lambda" or f.body is None or not f.cfg or not any(f is m for m in fns) for f in users):
+            continue
+        done = []
+        try:
+            for fn in users:
+                rw = normalize.Rewriter(tu, fn)
+                dids = [y.get("did") for y in fn.nodes() if y["k"] == "VarDecl"] + [y["ref"]["id"] for y in fn.nodes() if y["k"] == "DeclRefExpr"] + \
+                    [y.get("did") for y in cal.nodes() if y["k"] == "VarDecl"]
+                rw.next_did = min([d for d in dids if isinstance(d, int)] + [0]) - 1
+                body = copy.deepcopy(fn.body)
+                for count in range(17):
+                    site = _helper_call_site(body, cal)
+                    if site is None:
+                        break
+                    if count == 16:
+                        raise normalize.Fail("too many calls")
+                    call, top, q = site
+                    ch = kids(q)
+                    if not (q["k"] == "CompoundStmt" or (q["k"] == "IfStmt" and top is not ch[0]) or (q["k"] == "WhileStmt" and top is ch[1]) or
+                            (q["k"] == "ForStmt" and len(ch) == 4 and top is ch[3]) or (q["k"] == "DoStmt" and top is ch[0])):
+                        raise normalize.Fail("the call is not a statement of its own")
+                    pro, subst, rename = rw.bind(cal, call)
+                    stmts = [rw.simplify(rw.clone(x, subst, rename)) for x in kids(cal.body)]
+                    stmts = rw.deret(stmts, lambda e: ([e] if e is not None and not rw.side_effect_free(e) else []))
+                    _replace_child(q, top, {"k": "CompoundStmt", "id": rw.fresh(), "l": call.get("l"), "ch": pro + stmts})
+                if any(y["k"] == "DeclRefExpr" and y["ref"]["id"] == cal.did for y in ir.walk(body)):
+                    raise normalize.Fail("the helper is named without being called")
+                done.append((fn, body, cfgbuild.build(body)))
+        except (normalize.Fail, cfgbuild.Unsupported, KeyError, IndexError, TypeError):
+            continue
+        for fn, body, cfg in done:
+            fn.body, fn.cfg = body, cfg
+            fn.d = dict(fn.d)
+            fn.d["body"], fn.d["cfg"] = body, cfg
+            fn._byid = None
+            fn._parent = None
+            fn.normalized = True
+        fns = [f for f in fns if f is not cal]
+        tu.functions = [f for f in tu.functions if f is not cal]
+    return fns
 
 
 # ------------------------------------------------------------------------------------------------ reference aliases of data members
@@ -1764,6 +1862,7 @@ def run(ck):
     expanded = set()         # local lambdas that are only called by name: expanded at their calls, judged through the member
     for f in fns:
         resolve_member_aliases(tu, f)     # reference aliases of data members read as the members themselves
+    fns = inline_try_helpers(tu, fns)     # a new member helper with a try block, called as a statement: expanded at its calls
     for f in fns:
         expanded |= inline_classifier_lambdas(tu, f)     # a lambda that classifies the state into an enumeration: its calls read as its value
     for f in fns:
@@ -2116,6 +2215,7 @@ def run(ck):
         destroy = [(b, i) for b in g.blocks for i, el in enumerate(g.elements(b)) if isinstance(el, dict) and el.get("dtor") == jv["did"]]
         loads = []       # positions at which the variable receives a closure
         assigns = []     # (position, node) of assignments that destroy the previous closure and store a new one
+        swaps = []       # (position, node) of job.swap(<end element of the queue>): the previous closure goes into the queue slot
         if kids(jv) and kids(jv)[0] is not None:
             e = strip_casts(kids(jv)[0])
             if not (e["k"] in ("CXXConstructExpr", "CXXTemporaryObjectExpr") and not kids(e)):
@@ -2151,6 +2251,18 @@ def run(ck):
                         undecided(worker, p, "reset of the job object not found in the CFG")
                     destroy.append(pos_)
                     continue
+                if p["callee"]["name"] == "swap" and len(kids(p)) == 2 and "Delegate" in (p["callee"].get("record") or "") and \
+                        any(strip_casts(kids(p)[1]) is fr or (strip_casts(kids(p)[1]) or {}).get("id") == fr["id"] for fr in take_ops(worker)[0]):
+                    # job.swap(jobs_.front()): the closure of the queue's end element moves into the job object (a load, like the
+                    # move construction) and whatever the job object held before moves into the queue slot, where the removal
+                    # destroys it under the mutex (or, without a removal, it stays queued and runs again).  That is harmless only
+                    # if the job object is empty at the swap: no path from a load / the invocation to the swap without a destruction
+                    pos_ = g.pos_deep(p)
+                    if pos_ is None:
+                        undecided(worker, p, "swap of the job object not found in the CFG")
+                    swaps.append((pos_, p))
+                    loads.append(pos_)
+                    continue
                 if p["callee"].get("const"):
                     continue
             undecided(worker, y, "use of the job object that is not understood (%s): its lifetime is not followed"
@@ -2179,6 +2291,13 @@ def run(ck):
                 path = g.path_between_avoiding(s, pa, [x for x in destroy if x != s], blocked_edges=dead)
                 if path is not None and locks.held(worker, pos=pa) is not False and evidence(path, a):
                     why = "the job variable is re-assigned (the previous closure is destroyed at the assignment, under the lock)"
+        for pa, a in swaps:
+            for s in alive_from:
+                path = g.path_between_avoiding(s, pa, [x for x in destroy if x != s], blocked_edges=dead)
+                if path is not None and evidence(path, a):
+                    why = why or ("the job object still holds a closure when it is swapped with the queue's element (line %s): the previous closure goes "
+                                  "into the queue slot, where the removal destroys it under mutex_ (a destructor that enqueues deadlocks) or, "
+                                  "without a removal, it is run a second time" % a.get("l"))
         if not why:
             ck.ok("JOB-LIFETIME", worker.qname, "the job object is destroyed with mutex_ released and before --busy_")
         else:
